@@ -66,6 +66,13 @@ def check(run, project):
         c15.f1_f2(RuleView(run, "F1", "L13"), project)
     except AnalysisError as ex:
         run.info(f"L13: the front-ends could not be followed ({ex}); not judged here (C15 reports it)")
+    # L17 (= C14-Q1): `--out events` / `--out pretty` print every event of a warn-mode decode and exit 0: the printers look at
+    # path / type / value of an item only where it is known to be a MarshalEvent
+    from . import c14
+    try:
+        c14.check(RuleView(run, "Q1", "L17"), project)
+    except AnalysisError as ex:
+        run.info(f"L17: the printers could not be followed ({ex}); not judged here (C14 reports it)")
     # L14 (= C02-B2): `--out binary` prints the bytes of every decoded field and exits 0 also when the event stream carries
     # warnings (convert decodes in warn mode): the encoder's guards skip events without a value before they look at one
     from . import c02
